@@ -177,6 +177,8 @@ def gen_grammar(rng, adversarial=0.3, max_nts=6, max_terms=5, allow_empty_termin
         g.tenum_attrs.append('#[derive(Debug)]')
     elif rng.random() < 0.2:
         g.tenum_attrs.append('#[derive(Clone, Debug)]')
+    if rng.random() < 0.3:
+        g.item_order = rng.choice(['terminal_first', 'start_last', 'mixed', 'terminal_first_start_last'])
     if rng.random() < motifs:
         add_motifs(rng, g, behaviour)
     if rng.random() < name_relations:
@@ -327,7 +329,7 @@ def add_motifs(rng, g, behaviour=False):
     tn = [t for t, _ in g.terminals]
     for _ in range(rng.choice([1, 1, 2, 3])):
         m = rng.choice(['nullable_chain', 'nullable_chain', 'nullable_chain', 'unit_chain', 'opt_list', 'shared_prefix', 'shared_prefix', 'eps_alts',
-                        'prefix_loop', 'prefix_loop', 'late_merge', 'late_merge', 'wide_prefix', 'wide_prefix', 'dead_tail', 'unit_tail'])
+                        'prefix_loop', 'prefix_loop', 'late_merge', 'late_merge', 'wide_prefix', 'wide_prefix', 'dead_tail', 'unit_tail', 'concat_keys'])
         new = []
         if m == 'nullable_chain':
             k = rng.randint(2, 5)
@@ -468,6 +470,49 @@ def add_motifs(rng, g, behaviour=False):
             new.append(_mk('struct', par, [(None, pfs)], behaviour))
             new.append(_mk('struct', u, [(None, ufs)], behaviour))
             head = ('N', par)
+        elif m == 'concat_keys':
+            # names chosen so that nonterminal ++ lookahead spells the same string twice: (Ab, CdEf) and (AbCd, Ef), both
+            # expanded in one closure — anything keyed by a concatenation of names confuses them
+            base, mid, tail = rng.choice([('Expr', 'List', 'End'), ('Ab', 'Cd', 'Ef'), ('Stmt', 'Seq', 'Stop'), ('X', 'Y', 'Z')])
+            n1, n2, t1, t2 = base, base + mid, mid + tail, tail
+            usedn = {n['name'] for n in g.nts} | {t for t, _ in g.terminals} | {g.tenum}
+            if not ({n1, n2, t1, t2} & usedn):
+                g.terminals += [(t1, '()'), (t2, '()'), ('Cx9', 'u32')]
+                tn += [t1, t2, 'Cx9']
+                pr = _fresh_nt(g, 'Prog')
+                v = [('A', _wrap(rng, [('N', n2), ('T', t2)])), ('B', _wrap(rng, [('N', n1), ('T', t1)]))]
+                if rng.random() < 0.5:
+                    v.reverse()
+                new.append(_mk('enum', pr, v, behaviour))
+                new.append(_mk('struct', n1, [(None, _wrap(rng, [('T', 'Cx9')]))], behaviour))
+                new.append(_mk('struct', n2, [(None, _wrap(rng, [('T', 'Cx9'), ('T', 'Cx9')]))], behaviour))
+                head = ('N', pr)
+            else:
+                continue
+        elif m == 'big_state':
+            # a nonterminal with 33..70 alternatives (keywords): item sets of that size, reached from two contexts whose
+            # lookaheads arrive at different times
+            n = rng.choice([33, 36, 40, 64, 70])
+            kws = ['Kw%d' % i for i in range(n)]
+            g.terminals += [(k, '()') for k in kws]
+            pt = ['Bs%d' % i for i in range(8)]
+            g.terminals += [(t, '()') for t in pt]
+            tn += pt
+            rng.shuffle(pt)
+            st = _fresh_nt(g, 'BsStmt')
+            g.nts.append(_mk('struct', st, [], behaviour))
+            it = _fresh_nt(g, 'BsItem')
+            g.nts.append(_mk('struct', it, [], behaviour))
+            ca = _fresh_nt(g, 'BsCall')
+            g.nts.append(_mk('struct', ca, [], behaviour))
+            wo = _fresh_nt(g, 'BsWord')
+            del g.nts[len(g.nts) - 3:]
+            new.append(_mk('enum', st, [('A', _wrap(rng, [('N', it), ('T', pt[0])])), ('B', _wrap(rng, [('T', pt[1]), ('N', ca), ('T', pt[2])])),
+                                        ('C', _wrap(rng, [('T', pt[3]), ('N', it), ('T', pt[4])]))], behaviour))
+            new.append(_mk('struct', it, [(None, _wrap(rng, [('T', pt[5]), ('N', ca)]))], behaviour))
+            new.append(_mk('struct', ca, [(None, _wrap(rng, [('T', pt[6]), ('N', wo), ('T', pt[7])]))], behaviour))
+            new.append(_mk('enum', wo, [('W%d' % i, ('tuple', [(False, ('T', k))])) for i, k in enumerate(kws)], behaviour))
+            head = ('N', st)
         elif m == 'late_merge':
             # E -> l d E | d d d | l E r [| v]: one production appears at two dot positions in a state, the state discovered
             # last still has successors, and lookaheads reach it only in the re-propagation phase (which state is last
@@ -564,10 +609,20 @@ def render_tokens(g):
     for t, ty in g.terminals:
         te += ['$' + t, ':'] + type_tokens(ty)
     te += ['}']
-    if g.tenum is not None:
-        items.append(te)
-    for _ in range(g.start_count):
-        items.insert(0, list(st))
+    order = getattr(g, 'item_order', None)
+    starts = [list(st) for _ in range(g.start_count)]
+    tes = [te] if g.tenum is not None else []
+    if order == 'terminal_first':
+        items = tes + starts + items
+    elif order == 'start_last':
+        items = items + tes + starts
+    elif order == 'mixed':
+        k = len(items)
+        items = items[:k // 3] + starts + items[k // 3:(2 * k) // 3] + tes + items[(2 * k) // 3:]
+    elif order == 'terminal_first_start_last':
+        items = tes + items + starts
+    else:
+        items = starts + items + tes
     for raw in g.extra_items:
         items.append(list(raw))
     return items
@@ -853,7 +908,7 @@ def inject_violations(rng, g, k=None):
                         'wrong_ns_t', 'clash_nt', 'clash_t', 'clash_tenum', 'clash_nt_t', 'variant_name',
                         'variant_seq', 'lower_nt', 'lower_t', 'lower_tenum', 'lower_variant', 'upper_field',
                         'undef_start', 'start_is_terminal', 'ref_tenum_as_nt', 'ref_tenum_as_t', 'start_is_tenum',
-                        'start_case', 'ref_case_nt', 'ref_case_t'])
+                        'start_case', 'ref_case_nt', 'ref_case_t', 'variant_seq_x2', 'variant_name_x2', 'clash_x2'])
         kinds.append(v)
         nts = g.nts
         def _case_variant(n):
@@ -861,6 +916,34 @@ def inject_violations(rng, g, k=None):
             return next((c for c in cands if c != n and c not in RUST_RESERVED), None)
         defined_nts = {n['name'] for n in nts}
         defined_ts = {t for t, _ in g.terminals}
+        if v == 'variant_seq_x2':
+            # two DIFFERENT symbol sequences, each used by two variants of the same enum (which clash is reported must not
+            # depend on anything but the text)
+            es = [n for n in nts if n['kind'] == 'enum' and len(n['variants']) >= 2 and len({tuple(fs_syms(f)) for _, f in n['variants']}) >= 2]
+            if es:
+                e = rng.choice(es)
+                seen, picks = set(), []
+                for vn, fs in e['variants']:
+                    k = tuple(fs_syms(fs))
+                    if k not in seen:
+                        seen.add(k)
+                        picks.append(fs)
+                for j, fs in enumerate(picks[:rng.choice([2, 2, 3])]):
+                    syms = fs_syms(fs)
+                    alt = ('empty',) if not syms else ('tuple', [(True, q) for q in syms])
+                    e['variants'].insert(rng.randint(0, len(e['variants'])), ('Dup%d' % (90 + j), alt))
+            continue
+        if v == 'variant_name_x2':
+            es = [n for n in nts if n['kind'] == 'enum' and len(n['variants']) >= 2]
+            if es:
+                e = rng.choice(es)
+                for j, (vn, _) in enumerate(list(e['variants'])[:2]):
+                    e['variants'].insert(rng.randint(0, len(e['variants'])), (vn, ('tuple', [(True, ('N', nts[0]['name']))] * (6 + j))))
+            continue
+        if v == 'clash_x2' and len(nts) >= 2:
+            for n in rng.sample(nts, 2):
+                g.nts.insert(rng.randint(0, len(g.nts)), dict(name=n['name'], kind='struct', attrs=[], variants=[(None, ('empty',))]))
+            continue
         if v == 'start_case' and nts:
             c = _case_variant(g.start)
             if c and c not in defined_nts:
@@ -1201,6 +1284,8 @@ def join_grammars(rng, parts):
             g.nts.append(dict(name=ren(nt['name']), kind=nt['kind'], attrs=list(nt['attrs']), variants=vs))
         variants.append(('P%d' % i, ('tuple', [(False, ('T', lead)), (True, ('N', ren(h.start)))])))
     g.nts.insert(rng.randint(0, len(g.nts)), dict(name='Whole', kind='enum', attrs=[], variants=variants))
+    if rng.random() < 0.6:
+        g.item_order = rng.choice(['terminal_first', 'start_last', 'mixed', 'terminal_first_start_last'])
     return g
 
 
@@ -1242,4 +1327,32 @@ def conflict_motif(rng, behaviour=False):
                  mk('struct', 'La', [(None, tup([T(y)]))]), mk('struct', 'Lb', [(None, tup([T(y)]))])]
     if rng.random() < 0.5:
         g.nts.reverse()
+    return g
+
+
+def big_state_grammar(rng):
+    """A grammar whose item sets have 33..70 items (a nonterminal with that many keyword alternatives), reached from two
+    contexts whose lookaheads arrive at different times.  Too slow for the extracted model: crate vs reference only."""
+    g = Grammar()
+    g.tenum = 'Tok'
+    g.terminals = [('Tm', 'u32')]
+    g.start = None
+    _force = ['big_state']
+    # reuse the motif code path
+    import types
+    orig_choice = rng.choice
+    state = {'first': True}
+
+    def choice(seq):
+        if state['first'] and isinstance(seq, list) and 'nullable_chain' in seq:
+            state['first'] = False
+            return 'big_state'
+        return orig_choice(seq)
+    g.nts = [dict(name='Seed9', kind='struct', attrs=[], variants=[(None, ('tuple', [(True, ('T', 'Tm'))]))])]
+    g.start = 'Seed9'
+    rng.choice = choice
+    try:
+        add_motifs(rng, g, False)
+    finally:
+        rng.choice = orig_choice
     return g
